@@ -5,6 +5,7 @@ package pipeprops
 
 import (
 	"context"
+	"errors"
 	"fmt"
 	"math"
 	"time"
@@ -36,11 +37,27 @@ func (e elemErr) Unwrap() error {
 	return nil
 }
 
+// errSentinel is one error value shared by every failing element (kind 3).
+var errSentinel = errors.New("sentinel failure")
+
+const sentinelID = math.MinInt + 1
+
 func errID(err error) int {
 	if ee, ok := err.(elemErr); ok {
 		return ee.id
 	}
+	if err == errSentinel {
+		return sentinelID
+	}
 	return math.MinInt
+}
+
+// failure builds the error of a failing element according to the plan.
+func failure(p *driver.Plan, id int) error {
+	if p.X("err_kind") == 3 {
+		return errSentinel
+	}
+	return elemErr{id, p.X("err_kind")}
 }
 
 // ---------------------------------------------------------------- families
@@ -86,7 +103,7 @@ func pred(fn, arg, x int) bool {
 	case 3:
 		return x%3 == arg%3
 	}
-	return x%1000 < arg
+	return x%stride < arg
 }
 
 func unfoldF(fn, x int) int {
@@ -241,6 +258,17 @@ func baseStage(stage string) (string, bool) {
 }
 
 func modelOf(p *driver.Plan) Model {
+	m := modelOf0(p)
+	if p.X("err_kind") == 3 {
+		// one shared error value: only the number of errors is observable
+		for i := range m.Errs {
+			m.Errs[i] = sentinelID
+		}
+	}
+	return m
+}
+
+func modelOf0(p *driver.Plan) Model {
 	m := Model{MaxConsumed: -1, InfMax: -1}
 	var in []int
 	if len(p.Inputs) > 0 {
@@ -438,7 +466,7 @@ func (s *Sys) elemFn() func(int) (int, error) {
 		defer s.E.Leave(s.Calls, idx)
 		if s.P.Mode != "pure" && s.fails(s.pos(idx, x)) {
 			s.E.Fault("fn_error")
-			return 0, elemErr{x, s.P.X("err_kind")}
+			return 0, failure(s.P, x)
 		}
 		return mapImg(s.P.Fn, x), nil
 	}
@@ -460,7 +488,7 @@ func (s *Sys) visitFn() func(int) (int, error) {
 			// ForEach has nowhere to report a failure: every element is
 			// still visited exactly once
 			s.E.Fault("fn_error")
-			return x, elemErr{x, s.P.X("err_kind")}
+			return x, failure(s.P, x)
 		}
 		return x, nil
 	}
@@ -473,7 +501,7 @@ func (s *Sys) arrowFn() func(context.Context, int, chan<- int) error {
 		defer s.E.Leave(s.Calls, idx)
 		if s.P.Mode != "pure" && s.fails(s.pos(idx, x)) {
 			s.E.Fault("fn_error")
-			return elemErr{x, s.P.X("err_kind")}
+			return failure(s.P, x)
 		}
 		for _, y := range fmapImg(s.P.Fn, x) {
 			sel := simrt.Select("fn.emit", false, simrt.Snd(out, y), simrt.R(ctx.Done()))
@@ -497,7 +525,7 @@ func (s *Sys) genFn(unfold bool) func(int) (int, error) {
 		defer s.E.Leave(s.Calls, idx)
 		if s.P.Mode != "pure" && s.fails(idx) {
 			s.E.Fault("fn_error")
-			return 0, elemErr{idx, s.P.X("err_kind")}
+			return 0, failure(s.P, idx)
 		}
 		if unfold {
 			return unfoldF(s.P.Fn, x), nil
